@@ -70,15 +70,23 @@ def sk():
         from skyllh.core.minimizer import Minimizer
 
         class TableYield(DetSigYield):
-            """detector signal yield returning a prescribed array"""
+            """detector signal yield of ONE (dataset, group) cell.  Like a real DetSigYield it puts what it
+            needs per source into the source record array (here: the prescribed yields of THIS detector,
+            field `Y`, plus the source weight as a witness of which sources the array was built from) and
+            evaluates that record array in __call__: a record array built by another dataset's detector,
+            or for an older source list, gives other yields."""
             def __init__(self, table):
                 self._t = np.array(table, dtype=np.float64)
 
             def sources_to_recarray(self, sources):
-                return np.zeros((len(sources),), dtype=[('dec', np.double)])
+                rec = np.zeros((len(self._t),), dtype=[('Y', np.double), ('nsrc', np.int64)])
+                rec['Y'] = self._t
+                rec['nsrc'] = len(sources)
+                return rec
 
             def __call__(self, src_recarray, src_params_recarray):
-                return ((self._t if getattr(self, 'alias', False) else self._t.copy()), {})
+                y = src_recarray['Y']
+                return ((y if getattr(self, 'alias', False) else np.array(y, dtype=np.float64)), {})
 
         class NoBuilder(DetSigYieldBuilder):
             def __init__(self, **kw):
@@ -981,6 +989,8 @@ def probes(ctx, case, case2, opa):
 
     def stored(s):
         out = [('yield', j, g, s.arr[j, g]._t) for j in range(s.arr.shape[0]) for g in range(s.arr.shape[1])]
+        out += [('src_recarray', j, g, np.array(r['Y'])) for j, row in enumerate(s.ws.src_recarray_list_list)
+                for g, r in enumerate(row)]
         out += [('R_ik', n, 0, x._v) for n, x in enumerate(s.stubs)]
         out += [('src_idxs', n, 0, t.src_evt_idxs[0]) for n, t in enumerate(s.tdms)]
         out += [('evt_idxs', n, 0, t.src_evt_idxs[1]) for n, t in enumerate(s.tdms)]
